@@ -101,7 +101,8 @@ impl<'a> Gen<'a> {
         // (separators and brackets between the quotes only where the quotes are at most one level deep: deeper down the scanners
         //  do not look at quotes, known finding F4)
         if k < 18 {
-            let a = if d <= 1 { *self.r.pick(&["a, b", "12", "$X", "x(y", "[a]", "a | b", "1.5", "$_", "Hello World", "abc", "a; b", "smile :)"]) }
+            let a = if d <= 1 { *self.r.pick(&["a, b", "12", "$X", "x(y", "[a]", "a | b", "1.5", "$_", "Hello World", "abc", "a; b", "smile :)",
+                                               "50% off", "a # b", "http://x.y", "end. Next", "p :- q", "1 + 2", "a = b"]) }
                     else { *self.r.pick(&["12", "$X", "1.5", "$_", "Hello World", "abc"]) };
             return (format!("\"{}\"", a), atom!(a)); }
         if k < 28 { let i = *self.r.pick(&[0i64, 1, 7, 42, -3, -15, 123456789]); return (i.to_string(), SInteger(i)); }
